@@ -31,24 +31,49 @@ CONSUMERS = [
 ]
 
 
-def _result_consts(e, out):
+def _result_consts(e, out, cls=None):
     """string constants an expression can evaluate to (result positions only)."""
     if isinstance(e, ast.Constant):
         if isinstance(e.value, str):
             out.add(e.value)
+    elif isinstance(e, ast.Call) and isinstance(e.func, ast.Name) and e.func.id == 'next' and e.args \
+            and isinstance(e.args[0], ast.GeneratorExp) and len(e.args[0].generators) == 1 and cls is not None:
+        # table-driven: next((value for token, value in self.TABLE if ...), default) - the constants in the element
+        # position the result variable is bound from, plus the default
+        g = e.args[0]
+        gen = g.generators[0]
+        if len(e.args) > 1:
+            _result_consts(e.args[1], out, cls)
+        tbl = None
+        if isinstance(gen.iter, ast.Attribute) and isinstance(gen.iter.value, ast.Name) and gen.iter.value.id in ('self', 'cls'):
+            for st in cls.node.body:
+                if isinstance(st, ast.Assign) and len(st.targets) == 1 and isinstance(st.targets[0], ast.Name) \
+                        and st.targets[0].id == gen.iter.attr and isinstance(st.value, (ast.Tuple, ast.List)):
+                    tbl = st.value
+        if tbl is not None and isinstance(g.elt, ast.Name):
+            idx = None
+            if isinstance(gen.target, ast.Tuple):
+                for k, t in enumerate(gen.target.elts):
+                    if isinstance(t, ast.Name) and t.id == g.elt.id:
+                        idx = k
+            for row in tbl.elts:
+                if idx is None:
+                    _result_consts(row, out, cls)
+                elif isinstance(row, (ast.Tuple, ast.List)) and idx < len(row.elts):
+                    _result_consts(row.elts[idx], out, cls)
     elif isinstance(e, ast.IfExp):
-        _result_consts(e.body, out)
-        _result_consts(e.orelse, out)
+        _result_consts(e.body, out, cls)
+        _result_consts(e.orelse, out, cls)
     elif isinstance(e, ast.BoolOp):
         for v in e.values:
-            _result_consts(v, out)
+            _result_consts(v, out, cls)
 
 
 def _returned_consts(f):
     out = set()
     for n in own_nodes(f.node):
         if isinstance(n, ast.Return) and n.value is not None:
-            _result_consts(n.value, out)
+            _result_consts(n.value, out, f.cls)
     return out
 
 
@@ -144,8 +169,13 @@ def run(ctx) -> list[Inst]:
     prog = ctx.prog
     prod = producers(ctx)
     if len(prod['expr']) < 6 or len(prod['step']) < 4 or len(prod['dep']) < 4:
-        raise AnalysisError(f'R12: producer tables too small {{k: sorted(v) for k, v in prod.items()}}: '
-                            f'visitor idiom not recognised')
+        # the visitor no longer names its result constants in a form this rule reads (return of constants,
+        # conditional expressions, next() over a class-level table): nothing is decided
+        return [Inst(RULE, fname, f'handlers of {table} constants', 'unproven',
+                     msg=('producer constants of the visitor not recognised '
+                          f'({ {k: len(v) for k, v in prod.items()} }): the dispatcher is not compared'),
+                     file=prog.func(fname).module.relpath, line=prog.func(fname).node.lineno, props=props)
+                for (fname, table, props, subset) in CONSUMERS]
     insts = []
     for (fname, table, props, subset) in CONSUMERS:
         f = prog.func(fname)
